@@ -1002,6 +1002,7 @@ class DFA:
         the state is assumed to be reentrant.
         """
 
+        actions = list(actions)
         for finish in target_states:
             for incoming, trans in self.transitions_pointing_to(finish, include_states=True):
                 for action in actions:
@@ -1010,6 +1011,13 @@ class DFA:
                         raise UnableToScheduleActionError([incoming], [action])
                     else:
                         trans.attach(action)
+
+            # The end state of a loop is also entered by break actions nested inside conditional actions, which redirect there
+            # without any transition pointing at it; those run the loop's after-break actions, so chain the actions into them.
+            owner = ProgramData.lookup(finish, DTAG.PARENT, recurse_upwards=False)
+            if actions and isinstance(owner, LoopNode) and owner.end_state is finish:
+                if any(sub == owner.break_action for trans in self.all_transitions() for act in trans.actions for sub in act.all_subactions()):
+                    owner.after_break_actions.extend(x for x in actions if x not in owner.after_break_actions)
 
     def chain_actions_at_end(self, actions: Iterable["Action"]):
         self.chain_actions_into(actions, self.accepting_states)
